@@ -120,10 +120,41 @@ class SymBuffer2:
     def __getitem__(self, key):
         if not (isinstance(key, slice) and key.start is None and key.step is None):
             raise C.Unsupported('buffer read pattern')
-        n = R.lift(key.stop)
-        out = SymArray(n, self.ncols, self.dtype, origin='pix-chunk', cols=dict(self.assign))
-        out.src = dict(self.src)
+        n = R.lift(key.stop) if key.stop is not None else self.nrows
+        return SymBufferView(self, n)
+
+
+class SymBufferView(SymArray):
+    """buffer[:n]: a view of the first n rows.  Reading (write_array) sees the columns assigned so far - through the
+    buffer or through the view; assigning view[:, j] = values (or view[:k, j]) writes through to the buffer."""
+
+    def __init__(self, parent, n):
+        super().__init__(n, parent.ncols, parent.dtype, origin='pix-chunk', cols={})
+        self._parent = parent
+
+    @property
+    def cols(self):
+        return dict(self._parent.assign)
+
+    @cols.setter
+    def cols(self, v):
+        pass
+
+    @property
+    def src(self):
+        return dict(self._parent.src)
+
+    def frozen(self):
+        out = SymArray(self.nrows, self.ncols, self.dtype, origin='pix-chunk', cols=dict(self._parent.assign))
+        out.src = dict(self._parent.src)
         return out
+
+    def __setitem__(self, key, col):
+        rows, j = key
+        if not (isinstance(rows, slice) and rows.start is None and rows.step is None):
+            raise C.Unsupported('buffer view assignment pattern')
+        n = self.nrows if rows.stop is None else R.lift(rows.stop)
+        self._parent[slice(None, n), j] = col
 
 
 SHAPE_OBLIGATIONS: list = []
